@@ -227,6 +227,49 @@ def solver_roots_oracle(chk):
             hf.hook.remove_function(hf)
 
 
+def handover_oracle(chk):
+    """explicit values of every kind keep being explicit values along a solved line: a callable given explicitly on the incoming profile is handed from
+    position to position as the callable (not as the number it gave when the profile was copied) and is invoked on every read, with the object that is read"""
+    from pyroll.core import PassSequence, Transport, Rotator, Profile
+    import functools
+    state = {'scale': 1e-5}
+    got = []
+
+    def one_arg(profile):
+        got.append(profile)
+        return 200.0
+
+    class Table:
+        def __call__(self):
+            return state['scale'] * 3
+    flavours = {'scale_thickness': lambda: state['scale'], 'vickers_hardness': one_arg, 'thermal_conductivity': functools.partial(lambda k: state['scale'] * k, 2),
+                'grain_size': Table()}
+    ip = Profile.round(diameter=30e-3, temperature=1473.15, strain=0, material=["C45"], length=1)
+    for k, f in flavours.items():
+        setattr(ip, k, f)
+    t, r = Transport(label='T', duration=1), Rotator(label='R', rotation=90)
+    seq = PassSequence([t, r])
+    out = seq.solve(ip)
+    positions = [("sequence.in_profile", seq.in_profile), ("transport.in_profile", t.in_profile), ("transport.out_profile", t.out_profile),
+                 ("rotator.in_profile", r.in_profile), ("rotator.out_profile", r.out_profile), ("sequence.out_profile", seq.out_profile), ("the returned profile", out)]
+    for label, p in positions:
+        for k, f in flavours.items():
+            chk.cov['evaluations'] += 1
+            data = {'position': label, 'hook': k}
+            if p.__dict__.get(k) is not f:
+                return chk.fail('handover-explicit', f"{label}: the explicit value of {k} is {p.__dict__.get(k, '<absent>')!r}, the incoming profile carries the callable "
+                                f"{f!r} as explicit value (an explicit value stays what was assigned, it is not replaced by what it evaluates to)", data)
+        state['scale'] = 1e-5
+        a = (p.scale_thickness, p.thermal_conductivity, p.grain_size)
+        state['scale'] = 4e-5
+        b = (p.scale_thickness, p.thermal_conductivity, p.grain_size)
+        got.clear()
+        h = p.vickers_hardness
+        if a != (1e-5, 1e-5 * 2, 1e-5 * 3) or b != (4e-5, 4e-5 * 2, 4e-5 * 3) or h != 200.0 or not got or got[-1] is not p:
+            return chk.fail('handover-explicit', f"{label}: explicit callables are not invoked on every read with the object read: first {a}, after the input changed {b}, "
+                            f"one-argument callable got {'nothing' if not got else 'another object' if got[-1] is not p else 'the object'}", {'position': label})
+
+
 def run(chk):
     chk.coq.add_prop_file('C02.v')
     chk.coq.compile('C02.v', is_props=True, timeout=900)
@@ -257,6 +300,8 @@ def run(chk):
         solver_roots_oracle(chk)
     if not chk.failures:
         copy_oracle(chk)
+    if not chk.failures:
+        handover_oracle(chk)
     chk.sample(ser(cases[0]))
     chk.cov['rule'] = ("seeded random histories of read / assign (plain, falsy, None, zero- and one-argument callables) / delete / "
                        "re-evaluate / cache clear / register / remove / root evaluation / has_* on 1-3 instances of 1-3 classes with "
